@@ -169,7 +169,7 @@ PROPS["C06"] = {
     "level": "other",
     "text": "Scope-restricted.  Proved: OrderedChunkWriter.write keeps the invariant 'the file holds exactly the chunks 0.._current_index-1 "
             "in index order, everything else is waiting' for every arrival order (so the file content is a function of the set of "
-            "(index, data) messages only).  Bounded: -j N against -j 1 (bytes and JSON report) on a command-line grid.  Statistics.__iadd__ (first half): read counts, reverse-complemented counts and the per-filter counts are merged as point-wise sums with the union of the keys.",
+            "(index, data) messages only).  Bounded: -j N against -j 1 (bytes and JSON report) on a command-line grid.  Statistics.__iadd__: read counts, reverse-complemented counts and per-filter counts are merged as point-wise sums with the union of the keys; per read end base totals, with-adapter / quality-trimmed counts, poly-A histograms and per-adapter statistics are merged component-wise.",
     "note": "NOT explored: OS schedules, IPC primitives, deadlock/liveness (assumed reliable FIFO connections and exactly-once queue).",
     "assumptions": ["no interleaving of processes is enumerated; the claim is about arrival-order independence of the main process"],
 }
